@@ -71,9 +71,9 @@ def TogglesOK : Ctx → List (Char × Nat) → Prop
 
 /-- side conditions of one item in context `c` (core context `ic`, task registry `reg`) -/
 def Item.ok (ic : Option Ctx) (reg : List Ctx) (c : Ctx) : Item → Prop
-  | .spaced fl v i => Unsplit fl ∧ ∃ a a', ValFlagOK reg c fl i v a a'
-  | .eq fl v i => FlagTok fl ∧ ∃ a a', ValFlagOK reg c fl i v a a'
-  | .glued x y w i => x ≠ '-' ∧ y ≠ '=' ∧ ∃ a a', ValFlagOK reg c ['-', x] i (y :: w) a a'
+  | .spaced fl v i => Unsplit fl ∧ ∃ a a', ValFlagOK ic reg c fl i v a a'
+  | .eq fl v i => FlagTok fl ∧ ∃ a a', ValFlagOK ic reg c fl i v a a'
+  | .glued x y w i => x ≠ '-' ∧ y ≠ '=' ∧ ∃ a a', ValFlagOK ic reg c ['-', x] i (y :: w) a a'
   | .toggle fl i => Unsplit fl ∧ ToggleOK c fl i
   | .inverse nofl i => Unsplit nofl ∧ ∃ fl a, assoc? nofl c.flags = none ∧ assoc? nofl c.inverse = some fl ∧
       assoc? fl c.flags = some i ∧ c.args[i]? = some a ∧ a.spec.kind = .bool ∧ a.spec.incrementable = false
